@@ -54,8 +54,9 @@ func makeChunkID() (string, error) {
 
 //msgp:ignore GzipCompressor
 type ChunkReader struct {
-	br *bytes.Reader
-	R  *msgp.Reader
+	br  *bytes.Reader
+	R   *msgp.Reader
+	key []byte
 }
 
 func (cr *ChunkReader) Reset(b []byte) {
@@ -129,10 +130,13 @@ func GetChunk(b []byte) (string, error) {
 	}
 
 	for i := uint32(0); i < sz; i++ {
-		keyBits, err := reader.ReadMapKeyPtr()
+		// not ReadMapKeyPtr: it reports an empty key as an error
+		keyBits, err := reader.ReadMapKey(chunkReader.key[:0])
 		if err != nil {
 			return "", fmt.Errorf("read map key: %w", err)
 		}
+
+		chunkReader.key = keyBits
 
 		if bytes.Equal(keyBits, chunkKeyBits) {
 			v, err := reader.ReadMapKey(nil)
